@@ -2,9 +2,9 @@ ID = "C15"
 LEVEL = "model_checking"
 MIRSYM = "C15"
 BOUNDS = ("all 2^32 error codes (Kani); response objects of <= 4 (quick) / 5 (thorough) members over {jsonrpc, result, error, id, other} in any order / duplication with every read outcome "
-          "(value / null / error) per member (MIR -> SMT)")
+          "(value / null / error) per member (MIR -> SMT); every serializer of a wire type (hand-written and derived) for every shape and failure point of a generic serializer; the two hand-written scalar readers")
 EXPLANATION = ("Bounded model checking (Kani/CBMC, SAT) of the ErrorCode<->i32 mapping for every i32 and every kind; symbolic execution of the MIR of the hand-written Response "
-               "visitor (visit_map and the key visitor) against a symbolic serde MapAccess: z3 decides that the parser accepts exactly the member sequences the property allows.")
+               "visitor (visit_map and the key visitor) against a symbolic serde MapAccess: z3 decides that the parser accepts exactly the member sequences the property allows. What is written for each wire type is exactly its JSON-RPC 2.0 members from its own fields; the version is read through a string visitor and error codes as i32.")
 TRUSTED = ["rustc/Kani MIR->goto translation", "CBMC 6.11 + CaDiCaL", "serde_json text<->token fidelity (tokens, not text, are symbolic)"]
 OUTSIDE = ["JSON text scanning (serde_json)", "deep nesting and float precision of payloads (RawValue is copied verbatim)",
            "serialise/parse round-trips of requests, notifications, ids and subscription ids (derive-generated serde code over serde_json: no solver-reachable kernel; native battery only)"]
